@@ -60,8 +60,35 @@ def _read_back(text):
     return list(REC[0][0])[1:]
 
 
-def _complete(name, style):
+SIBLINGS = [None, "z$s", "z\\s"]  # another candidate of the same completion (a name needing a raw string)
+
+
+def _complete(name, style, sib=0):
     start, end = STYLES[style]
+    r = _complete_one(name, start, end)
+    if r:
+        return r
+    sibling = SIBLINGS[sib]
+    if sibling is None or sibling == name:
+        return None
+    # the candidates of one completion are quoted together: each must still read back as its own file
+    try:
+        both, _ = CP._quote_paths([name, sibling], start, end)
+    except Exception as e:  # noqa: BLE001
+        return f"completer-crash: names {[name, sibling]!r} opening quote {start!r}: {type(e).__name__}: {e}"
+    got = []
+    for text in sorted(both):
+        try:
+            got.append(_read_back(text))
+        except Exception as e:  # noqa: BLE001
+            got.append([f"<{type(e).__name__}>"])
+    if sorted(map(repr, got)) != sorted(map(repr, [[name], [sibling]])):
+        return (f"wrong-file-with-sibling: candidates {[name, sibling]!r} (opening quote {start!r}) complete to {sorted(both)!r}, which xonsh reads as "
+                f"{got!r}; alone, {name!r} completes to text that reads back correctly")
+    return None
+
+
+def _complete_one(name, start, end):
     try:
         out, _ = CP._quote_paths([name], start, end)
     except Exception as e:  # noqa: BLE001
@@ -94,8 +121,8 @@ def _kind(name, start, text=""):
     return "wrong-file"
 
 
-def ob_complete(n: int, c0: int, c1: int, c2: int, style: int) -> Optional[str]:
-    if not (1 <= n <= 3 and 0 <= style < len(STYLES)):
+def ob_complete(n: int, c0: int, c1: int, c2: int, style: int, sib: int) -> Optional[str]:
+    if not (1 <= n <= 3 and 0 <= style < len(STYLES) and 0 <= sib < len(SIBLINGS)):
         raise Skip()
     cs = [c0, c1, c2]
     for i in range(3):
@@ -107,7 +134,7 @@ def ob_complete(n: int, c0: int, c1: int, c2: int, style: int) -> Optional[str]:
     name = "".join(_pick(POOL, cs[i]) for i in range(n))
     if name in (".", "..") or name.strip() == "" or "/" in name:
         raise Skip()
-    r = concretely(_complete, name, _pick(list(range(len(STYLES))), style))
+    r = concretely(_complete, name, _pick(list(range(len(STYLES))), style), _pick(list(range(len(SIBLINGS))), sib))
     if r:
         k, rest = r.split(":", 1)
         return viol(k, lambda: rest.strip())
@@ -192,9 +219,11 @@ NP = len(POOL)
 OBLIGATIONS = [
     Obligation("complete_and_read_back", ob_complete,
                bounds=f"file names of 1..3 symbols over a {NP}-symbol pool of class representatives, five opening-quote styles ('', ', \", r', r\"): "
-                      "the text _quote_paths inserts, executed by xonsh as `cmd <text>`, must deliver exactly [name]",
+                      "the text _quote_paths inserts, executed by xonsh as `cmd <text>`, must deliver exactly [name]; with a sibling candidate that needs a raw string "
+                      "(names of <= 2 symbols; thorough: all) every candidate still reads back as its own file",
                pre=[f"0 <= c0 < {NP}", f"0 <= c1 < {NP}", f"0 <= c2 < {NP}"],
-               parts={"quick": [dict(n=1), dict(n=2)] + [dict(n=3, style=s, c0=c) for s in range(len(STYLES)) for c in range(NP)]},
+               parts={"quick": [dict(n=1), dict(n=2)] + [dict(n=3, style=s, c0=c, sib=0) for s in range(len(STYLES)) for c in range(NP)],
+                      "thorough": [dict(n=1), dict(n=2)] + [dict(n=3, style=s, c0=c) for s in range(len(STYLES)) for c in range(NP)]},
                timeout={"quick": 240, "thorough": 600},
                regions={"C18-raw-string-cannot-express-name": _region_raw, "C18-bang": _region_bang, "C18-leading-tilde": _region_tilde},
                symbolic="symbol index per position, quote style"),
